@@ -12,7 +12,7 @@ from vt.props import common as cm
 PID = "C02"
 RULE = (
     "Hypothesis-generated scenarios: 1-8 ackable messages (sync or async ack callback; a few malformed/unknown), "
-    "three acknowledge types, outcomes return / Exception / BaseException subclasses / timeout label exceeded / "
+    "three acknowledge types, async bodies optionally with an asynchronous clean-up in `finally` (they finish only some time after a timeout cancels them), outcomes return / Exception / BaseException subclasses / timeout label exceeded / "
     "no-result / result-backend failure on a generated subset of saves, save latency, A in 1..4, P in 0..3, optional "
     "stop. Oracle over the trace of the real Receiver: ack count == 1 per well-formed message (<=1 for skipped); "
     "its position relative to enter / exit / save_end|save_failed per acknowledge type; and, for EVERY prefix of "
@@ -40,7 +40,7 @@ def scenario() -> Any:
         return d
 
     msg = cm.message(kinds=("async", "async", "async", "async", "sync", "bad", "unknown"),
-                     acks=("sync", "async"), timeouts=(None, None, None, 0.3, 1, "0.35"))
+                     acks=("sync", "async"), timeouts=(None, None, None, 0.3, 1, "0.35"), cleanups=(0, 0, 0, 0.2))
     return st.fixed_dictionaries({
         "A": st.integers(1, 4), "P": st.integers(0, 3),
         "ack_type": st.sampled_from(["when_received", "when_executed", "when_saved"]),
@@ -71,12 +71,11 @@ def point_reached(kinds_before: List[str], ack_type: str) -> bool:
 
 def expects_save(sp: Dict[str, Any]) -> Any:
     """True / False / None (tie between duration and timeout: either)."""
-    to = sp.get("timeout")
-    if sp["kind"] == "async" and to is not None:
-        if sp["dur"] > float(to):
-            return True
-        if sp["dur"] == float(to):
-            return None
+    v = wh.timeout_verdict(sp)
+    if v == "timeout":
+        return True
+    if v == "tie":
+        return None
     return sp["out"] != "NoResult"
 
 
